@@ -212,6 +212,27 @@ func (V *Verifier) lookupType(name string, pkg *types.Package) types.Type {
 	return nil
 }
 
+// typeOfSpecExpr: the type named by ident T or pkg.T, if the expression is one.
+func (V *Verifier) typeOfSpecExpr(e SExpr, pkg *types.Package, isVar func(string) bool) types.Type {
+	switch x := e.(type) {
+	case *SIdent:
+		if isVar != nil && isVar(x.Name) {
+			return nil
+		}
+		return V.lookupType(x.Name, pkg)
+	case *SSel:
+		if id, ok := x.X.(*SIdent); ok {
+			if isVar != nil && isVar(id.Name) {
+				return nil
+			}
+			if _, isPkg := V.tpkgs[id.Name]; isPkg {
+				return V.lookupType(id.Name+"."+x.Name, pkg)
+			}
+		}
+	}
+	return nil
+}
+
 // contractFor finds the contract and the naming information of a call.
 func (V *Verifier) contractFor(ex *Exec, c *ssa.CallCommon) (*FuncSpec, calleeInfo) {
 	info := calleeInfo{sig: c.Signature()}
@@ -417,10 +438,7 @@ func (V *Verifier) modifiesNames(ex *Exec, spec *FuncSpec, c *ssa.CallCommon) []
 					}
 				}
 			case *SSel:
-				var owner types.Type
-				if id, ok := x.X.(*SIdent); ok && ptypes[id.Name] == nil {
-					owner = V.lookupType(id.Name, info.pkg)
-				}
+				owner := V.typeOfSpecExpr(x.X, info.pkg, func(n string) bool { return ptypes[n] != nil })
 				if owner == nil {
 					owner = staticType(x.X)
 				}
